@@ -93,6 +93,10 @@ func Load(dir string, overlay map[string][]byte) (*Program, error) {
 		for _, n := range sc.Names() {
 			if tn, ok := sc.Lookup(n).(*types.TypeName); ok && !tn.IsAlias() {
 				if nt, ok := tn.Type().(*types.Named); ok {
+					f := P.File(tn.Pos())
+					if strings.Contains(f, "/mocks/") || strings.HasPrefix(f, "testutil/") || strings.Contains(f, "/testutil/") || strings.Contains(f, "/simulation/") {
+						continue // test doubles never run on the consensus path
+					}
 					P.named = append(P.named, nt)
 				}
 			}
